@@ -4,6 +4,9 @@ type PotResult struct {
 	rank  Rank
 	level *PotLevel
 
+	// odd chips handed out so far to tied winners of this pot
+	oddChips int64
+
 	Total   int64     `json:"total"`
 	Winners []*Winner `json:"winners"`
 }
